@@ -5,7 +5,7 @@ Read from /repo (declarations and tables only, never control flow):
   src/analyzer/{optimizations,vulnerabilities,qa}/mod.rs
       enum <E> { V, ... }                       -> variant names, declaration order
       fn get_all_*  { vec![E::V, ...] }         -> default list (variant indices)
-      fn str_to_*   { match x.to_lowercase().as_str() { "name" => E::V, ..., other => { panic!(..) } } }
+      fn str_to_*   { .. x.to_lowercase() .. match .. { "name" => E::V, ..., other => { panic!(..) } } }
                                                 -> (name, variant index) arms in source order
       fn analyze_for_* { ... match v { E::V => .., } } -> variants that have a dispatch arm
   src/report/{optimization,vulnerability,qa}_report.rs
@@ -131,12 +131,12 @@ def str_to(toks, fn, enum):
         raise ValueError('%s: one named parameter expected' % fn)
     param = toks[i + 2][1]
     scrut, m = find_match(toks, a, b, fn)
-    want = [('id', param), ('p', '.'), ('id', 'to_lowercase'), ('p', '('), ('p', ')'), ('p', '.'), ('id', 'as_str'),
-            ('p', '('), ('p', ')')]
-    if [t[:2] for t in scrut] != want:
-        raise ValueError('%s: scrutinee is not `%s.to_lowercase().as_str()`' % (fn, param))
-    if [t[:2] for t in toks[a + 1:m]] != [('id', 'match')] + want:
-        raise ValueError('%s: statements before the match' % fn)
+    # the scrutinee is the lower-cased parameter: either `p.to_lowercase().as_str()` directly or a
+    # variable bound to it before the match; what matters is that to_lowercase is applied once
+    # (the behaviour itself is tied by the correspondence check, not by this shape)
+    head = [t[:2] for t in toks[a + 1:m]]
+    if head.count(('id', 'to_lowercase')) != 1 or ('id', param) not in head:
+        raise ValueError('%s: `%s.to_lowercase()` expected (once) before the match arms' % (fn, param))
     arms, end = rl.match_arms(toks, m)
     if end != b - 1:
         raise ValueError('%s: tokens after the match' % fn)
